@@ -126,7 +126,8 @@ def generate(repo, g):
     arg = lam.args.args[0].arg
     elts = lam.body.elts if isinstance(lam.body, ast.Tuple) else [lam.body]
     table = {"str(%s.module_path or '')" % arg: 'path_or_empty', '%s.line or 0' % arg: 'line_or_0',
-             '%s.column or 0' % arg: 'column_or_0', '%s.name' % arg: 'name'}
+             '%s.column or 0' % arg: 'column_or_0', '%s.name' % arg: 'name',
+             '%s._name.api_type' % arg: 'api_type'}
     comps = []
     for e in elts:
         if u(e) not in table:
@@ -148,7 +149,7 @@ def generate(repo, g):
         if _strip('self.', l) != _strip('other.', r):
             raise TieBroken('classes.py: Name.__eq__ compares different fields', u(c))
         fields.append(_strip('self.', l))
-    known = {'_name.start_pos', 'module_path', 'name', '_inference_state'}
+    known = {'_name.start_pos', 'module_path', 'name', '_inference_state', '_name.api_type'}
     if not set(fields) <= known:
         raise TieBroken('classes.py: Name.__eq__ field outside the model', repr(fields))
     g.define('eqFields', 'List String', lean_list(fields), 'jedi/api/classes.py:Name.__eq__')
